@@ -27,9 +27,11 @@ func isBoolLocal(f *Func, id *ast.Ident) bool {
 
 func init() {
 	register(&Property{ID: "C13", Run: runC13,
-		Explain: "Per-peer state reclamation decided as an inventory with obligations: (R13.1) every struct field of the module that is a map keyed by peer.ID (directly or as the inner map of a map keyed by topic/message/IP) is enumerated from the type information on every run; each needs a reclaim site (delete of the key / of the inner entry, or replacement of the map) that is reachable in the VTA call graph from a departure root (handleDeadPeers, onClosedIncomingStream, the stream handler's deferred cleanup, the blacklist arm's callees), a periodic root (heartbeat, scorer/gater/backoff/time-cache background loops), a completion root (DeliverMessage/RejectMessage fan-out, for message-scoped maps) or its consumer (pending/queue-like maps); a new per-peer field without one fails; named exemptions: direct peers (operator configuration), blacklist state (policy); (R13.2) guard symmetry: the feature(...) guards required on every call path to a reclaimer are a subset of those on the paths to every creator of the same field (otherwise entries created for some protocol versions are never reclaimed); (R13.3) entries are created only for peers that can be reclaimed: the pending-control buffer is written only behind a successful lookup of the peer's queue, and mesh admission requires gs.peers membership (shared R07.5, known finding F8); (R13.4) protection pairing: every removal of a peer from a mesh map reaches tracer.Prune or tagTracer.untagMeshPeer for that topic (connection-manager protection released), the tag tracer's Graft/Prune map to Protect/Unprotect with the same tag; (R13.5) stream bookkeeping: the stream handler's deferred cleanup removes its inboundStreams entry when it is the current one and reports the closed stream iff it reported the new one; the extension state's closed-stream handlers delete their entries; router/scorer/gater departure handlers (shared R07.5, R10.4, R05.6) remove the peer; (R13.6) the gater deletes a peer's entry whenever its outbound stream closed, independently of the connection count it shares with other peers behind the same IP. NOT decided: that retention periods elapse and sweeps run (timing); entries re-created by late validation callbacks after departure.",
+		Explain: "Per-peer state reclamation decided as an inventory with obligations: (R13.1) every struct field of the module that is a map keyed by peer.ID (directly or as the inner map of a map keyed by topic/message/IP) is enumerated from the type information on every run; each needs a reclaim site (delete of the key / of the inner entry, or replacement of the map) that is reachable in the VTA call graph from a departure root (handleDeadPeers, onClosedIncomingStream, the stream handler's deferred cleanup, the blacklist arm's callees), a periodic root (heartbeat, scorer/gater/backoff/time-cache background loops), a completion root (DeliverMessage/RejectMessage fan-out, for message-scoped maps) or its consumer (pending/queue-like maps); a new per-peer field without one fails; named exemptions: direct peers (operator configuration), blacklist state (policy); (R13.2) guard symmetry: the feature(...) guards required on every call path to a reclaimer are a subset of those on the paths to every creator of the same field (otherwise entries created for some protocol versions are never reclaimed); (R13.3) entries are created only for peers that can be reclaimed: the pending-control buffer is written only behind a successful lookup of the peer's queue, and mesh admission requires gs.peers membership (shared R07.5, known finding F8); (R13.4) protection pairing: every removal of a peer from a mesh map reaches tracer.Prune or tagTracer.untagMeshPeer for that topic (connection-manager protection released), the tag tracer's Graft/Prune map to Protect/Unprotect with the same tag; (R13.5) stream bookkeeping: the stream handler's deferred cleanup removes its inboundStreams entry when it is the current one and reports the closed stream iff it reported the new one; the extension state's closed-stream handlers delete their entries; router/scorer/gater departure handlers (shared R07.5, R10.4, R05.6) remove the peer; (R13.6) the gater deletes a peer's entry whenever its outbound stream closed, independently of the connection count it shares with other peers behind the same IP. (R13.7) every RejectMessage after ValidateMessage uses a reason on which tagTracer.RejectMessage releases the near-first entry. NOT decided: that retention periods elapse and sweeps run (timing); entries re-created by late validation callbacks after departure.",
 		Assume:  []string{"VTA call graph over-approximates calls through stored function values", "roots are invoked by the event loop / their goroutines as analysed under C05/C14"},
 		Mutants: []Mutant{
+			{Name: "post-validation-drop-keeps-nearfirst", File: "pubsub.go", Old: "\t\t\t\tp.logger.Debug(\"dropping validated message from blacklisted peer\", \"peer\", msg.ReceivedFrom)\n\t\t\t\tp.tracer.RejectMessage(msg, RejectValidationIgnored)\n", New: "\t\t\t\tp.logger.Debug(\"dropping validated message from blacklisted peer\", \"peer\", msg.ReceivedFrom)\n\t\t\t\tp.tracer.RejectMessage(msg, RejectBlacklstedPeer)\n", Expect: "R13.7"},
+			{Name: "tagtracer-ignores-ignored", File: "tag_tracer.go", Old: "\tcase RejectValidationIgnored:\n\t\tfallthrough\n", New: "", Expect: "R13.7"},
 			{Name: "closed-stream-keeps-control-buffer", File: "gossipsub.go", Old: "\tdelete(gs.gossip, p)\n\tdelete(gs.control, p)\n\tdelete(gs.outbound, p)", New: "\tdelete(gs.gossip, p)\n\tdelete(gs.outbound, p)", Expect: "R13.5"},
 			{Name: "gater-stats-never-removed", File: "peer_gater.go", Old: "\tif outbound || st.connected == 0 {\n\t\tdelete(pg.peerStats, p)\n\t}", New: "\t_ = outbound", Expect: "R13.1"},
 			{Name: "extension-reclaim-feature-guarded", File: "gossipsub.go", Old: "\tgs.extensions.OnClosedIncomingStream(pid, proto)\n}", New: "\tif gs.feature(GossipSubFeatureExtensions, proto) {\n\t\tgs.extensions.OnClosedIncomingStream(pid, proto)\n\t}\n}", Expect: "R13.2"},
@@ -450,6 +452,7 @@ func runC13(c *RuleCtx) {
 			}
 		}
 	}
+	checkValidationStateReleased(c)
 	c.Min["R13.1"] = 30
 	c.Min["R13.2"] = 15
 	c.Min["R13.3"] = 4
@@ -576,4 +579,109 @@ func (q *guardQuery) at(f *Func, n ast.Node, depth int) map[string]bool {
 		out[k] = true
 	}
 	return out
+}
+
+// R13.7: what the tracers keep for a message under validation (tagTracer.nearFirst, created by
+// ValidateMessage) is released by DeliverMessage or by RejectMessage — but the latter only for the
+// reasons its switch names. Every way a message can leave the pipeline after ValidateMessage must
+// therefore report one of those reasons (or deliver).
+func checkValidationStateReleased(c *RuleCtx) {
+	p := c.P
+	tf := c.MustFn("R13.7", "(*tagTracer).RejectMessage")
+	if tf == nil {
+		return
+	}
+	releasing := map[string]bool{}
+	deletes := false
+	ast.Inspect(tf.Body, func(x ast.Node) bool {
+		if cc, ok := x.(*ast.CaseClause); ok {
+			for _, e := range cc.List {
+				if v := p.R(tf).Val(e); v != nil && v.Kind == "const" {
+					releasing[v.Name] = true
+				}
+			}
+		}
+		return true
+	})
+	for _, d := range p.mapDeletes(tf) {
+		if p.R(tf).Val(d.Map).IsField("tagTracer.nearFirst") {
+			deletes = true
+		}
+	}
+	if !deletes || len(releasing) == 0 {
+		c.Undecided("R13.7", tf.Name, "releasing reasons", tf.Decl, "tagTracer.RejectMessage no longer deletes nearFirst under a switch on the reason (rule premise changed)")
+		return
+	}
+	// which functions run only after ValidateMessage: fixpoint over callers
+	const fnValidateMsg = "(*pubsubTracer).ValidateMessage"
+	post := map[string]bool{}
+	sitePost := func(cs CallSite) bool {
+		if post[cs.Fn.Root().Name] {
+			return true
+		}
+		// the site itself, or the function literal it sits in (a goroutine started after the call), is
+		// reachable from a ValidateMessage call of an enclosing function
+		var node ast.Node = cs.Call
+		for f := cs.Fn; f != nil; f = f.Parent {
+			g := p.Graph(f)
+			if sp, ok := g.Locate(node); ok {
+				for _, vs := range p.Sites(f, false, fnValidateMsg) {
+					if vp, ok := g.Locate(vs.Call); ok && g.ReachableFrom(vp.After(), sp, nil, nil) {
+						return true
+					}
+				}
+			}
+			if f.Lit == nil {
+				break
+			}
+			node = f.Lit
+		}
+		return false
+	}
+	for changed := true; changed; {
+		changed = false
+		for _, f := range p.All {
+			if f.Parent != nil || f.File != "validation.go" || post[f.Name] {
+				continue
+			}
+			sites := p.AllSites(f.Name)
+			if len(sites) == 0 {
+				continue
+			}
+			all := true
+			for _, cs := range sites {
+				if !sitePost(cs) {
+					all = false
+				}
+			}
+			if all {
+				post[f.Name] = true
+				changed = true
+			}
+		}
+	}
+	n := 0
+	for _, cs := range p.AllSites(fnRejectMsg) {
+		if len(cs.Call.Args) != 2 {
+			continue
+		}
+		isPost := sitePost(cs)
+		if !isPost && cs.Fn.Root().Name == fnProcessLoop {
+			// the arm that takes validated messages back from the pipeline
+			if cl := selectClauseOn(p, cs.Fn, "PubSub.sendMsg"); cl != nil && within(cs.Call, cl) {
+				isPost = true
+			}
+		}
+		if !isPost {
+			continue
+		}
+		n++
+		rv := p.R(cs.Fn).Val(cs.Call.Args[1])
+		ok := rv != nil && rv.Kind == "const" && releasing[rv.Name]
+		c.Check(ok, "R13.7", cs.Fn.Root().Name, "message leaving the pipeline releases its validation-time state ("+rv.String()+")", cs.Call, "reason handled by tagTracer.RejectMessage", "a message that has been through ValidateMessage is rejected with reason "+rv.String()+", which tagTracer.RejectMessage ignores: the nearFirst entry created for it is never deleted")
+	}
+	if n < 6 {
+		c.Undecided("R13.7", "post-validation rejections", "inventory", nil, "fewer rejection sites after ValidateMessage than known: "+itoa(n))
+	}
+	c.Min["R13.7"] = 6
 }
